@@ -570,8 +570,30 @@ func c13canon(b []byte) string {
 	} else {
 		dir = append(dir, "unreadable")
 	}
-	return fmt.Sprintf("len=%d hdr=%d,%d,%d,%d,%d,%d,%d hd=%s tbl=%s dir=%s h=%d", len(b), h(0x2C), h(0x30), h(0x38), h(0x3C), h(0x40), h(0x44), h(0x48),
-		c13rle(hd), c13rle(tbl), strings.Join(dir, ";"), c13fnv(b))
+	// byte regions described through the directory: streams at or above the cutoff and the mini stream container
+	var regs []string
+	if doc, err := c13ReadLoose(b); err == nil {
+		for _, e := range doc {
+			if e.blank || !((e.typ == 2 && e.size >= 4096) || (e.typ == 5 && e.size > 0)) || e.start < 0 {
+				continue
+			}
+			n := (int(e.size) + 511) / 512
+			lo, hi := 512*(int(e.start)+1), 512*(int(e.start)+1+n)
+			if lo > len(b) {
+				lo = len(b)
+			}
+			if hi > len(b) {
+				hi = len(b)
+			}
+			regs = append(regs, fmt.Sprintf("%s:%d:%d:%d", hx(e.name), e.start, n, c13fnv(b[lo:hi])))
+		}
+	}
+	reg := "-"
+	if len(regs) > 0 {
+		reg = strings.Join(regs, ";")
+	}
+	return fmt.Sprintf("len=%d hdr=%d,%d,%d,%d,%d,%d,%d hd=%s tbl=%s dir=%s hdr76=%s reg=%s h=%d", len(b), h(0x2C), h(0x30), h(0x38), h(0x3C), h(0x40), h(0x44), h(0x48),
+		c13rle(hd), c13rle(tbl), strings.Join(dir, ";"), hx(string(b[:76])), reg, c13fnv(b))
 }
 
 // c13ReadLoose returns the directory entries in file order, located by following the FAT
@@ -765,6 +787,7 @@ func c13enc(r *Run, rng *Rng, pw string, n, k int, nWrong int) {
 		if third, terr := c13Mscfb(enc); terr != nil || !bytes.Equal(third["EncryptedPackage"], doc.streams["EncryptedPackage"]) || !bytes.Equal(third["EncryptionInfo"], doc.streams["EncryptionInfo"]) {
 			structSig, structWhat = "cfb:mscfb-vs-ref", fmt.Sprintf("mscfb and the reference reader disagree on Encrypt's output (%v)", terr)
 		}
+		c13einfo(r, doc.streams["EncryptionInfo"])
 		if verr := c13verifier(doc.streams["EncryptionInfo"], pw); verr != nil {
 			structSig, structWhat = "enc:verifier", "the EncryptionInfo written by Encrypt does not verify under the password with an independent key derivation: "+verr.Error()
 		}
